@@ -56,6 +56,7 @@ type Rec struct {
 	ConnID      int
 	Keyspace    string
 	Version     byte
+	ConnVersion byte // protocol version the connection was started with
 	Compression string
 	Stream      int16
 	Opcode      byte
@@ -87,6 +88,7 @@ type Conn struct {
 	keyspace    string
 	registered  bool
 	started     bool
+	startupVer  byte // protocol version of the STARTUP frame of this connection
 	codec       frame.RawCodec
 	closed      bool
 }
@@ -456,6 +458,7 @@ func (c *Conn) logRec(r Rec) *Rec {
 	r.ConnID = c.ID
 	r.Keyspace = c.keyspace
 	r.Compression = c.compression
+	r.ConnVersion = c.startupVer
 	b.Log = append(b.Log, r)
 	p := &b.Log[len(b.Log)-1]
 	if b.OnFrame != nil {
@@ -548,6 +551,7 @@ func (c *Conn) handle(hdr, body, raw []byte) bool {
 		be.mu.Unlock()
 		c.host.mu.Lock()
 		c.started = true
+		c.startupVer = byte(version)
 		c.host.mu.Unlock()
 		c.sendMsg(stream, &message.Ready{})
 		return true
